@@ -31,7 +31,7 @@ func Draw(t *rapid.T) *pbt.Case {
 		sg = gen.Regular()
 	}
 	c.SetStr("alphabet", alpha)
-	c.Spec = gen.Draw(t, sg, rapid.IntRange(1, maxB).Draw(t, "budget"))
+	c.Spec = gen.Default(sg).With("netopsrc").Draw(t, rapid.IntRange(1, maxB).Draw(t, "budget"))
 	c.SetInt("hops", rapid.IntRange(0, 2).Draw(t, "hops"))
 	switch rapid.SampledFrom([]string{"none", "all", "some"}).Draw(t, "unknowing") {
 	case "all":
